@@ -95,7 +95,24 @@ def check_C17(report, tier, seed):
     E.monitor(report, walks, "C17")
 
 
-CHECKS = {"C01": check_C01, "C02": check_C02, "C03": check_C03, "C04": check_C04, "C05": check_C05, "C06": check_C06,
+def check_C19(report, tier, seed):
+    import suites_client as S
+    report.rule = ("reconnect configurations: base/max/stability from {0, 1 ns, sub-ms, 1 s .. 120 s, 2^63 ns, u64::MAX s, Duration::MAX}, "
+                   "base>max, jitter none/uniform, 1..70 consecutive waits, then a connection that succeeds and ends; distinct by script")
+    gv.theorem_obligations(report, "GV/Props/C19.lean", "GV.Props.C19", audit=True)
+    S.suite_backoff(report, tier, seed, "C19")
+
+
+def check_C12(report, tier, seed):
+    import suites_client as S
+    report.rule = ("replica of client_event_loop over the real MqttClientImpl: random interleavings of start/stop/stop-with-DISCONNECT/close/"
+                   "publish with transport outcomes (refused, timed out, established, EOF, failing/successful CONNACK, write completions), "
+                   "followed by a fairness phase with a reacting transport; distinct by script")
+    gv.theorem_obligations(report, "GV/Props/C12.lean", "GV.Props.C12", audit=True)
+    S.suite_lifecycle(report, tier, seed, "C12")
+
+
+CHECKS = {"C12": check_C12, "C19": check_C19, "C01": check_C01, "C02": check_C02, "C03": check_C03, "C04": check_C04, "C05": check_C05, "C06": check_C06,
           "C07": check_C07, "C09": check_C09, "C10": check_C10, "C11": check_C11, "C14": check_C14, "C15": check_C15,
           "C16": check_C16, "C17": check_C17, "C18": check_C18}
 
